@@ -148,6 +148,10 @@ def judge_socket(data, opts, chunks, bufsize, end):
                 viol.append((f"{PROP}|no-preamble", f"socket transport: raw {raw[:16].hex()}"))
                 break
             pos = j + len(raw)
+        if not viol and sock._pos < len(data):
+            # (None, None) while the peer still had bytes to deliver
+            viol.append((f"{PROP}|eof-with-data-left", f"socket transport: end-of-stream reported after {n} items with "
+                                                        f"{len(data) - sock._pos} of {len(data)} bytes not yet received"))
     finally:
         sock.close()
     return viol, n
@@ -210,11 +214,19 @@ def run_shard(spec, ctx, acc):
                 # frames that quote another frame in their payload, > 64 KiB in total
                 body = []
                 k = draw(st.integers(0, 30))
-                while sum(len(x) for x in body) < 70000:
-                    # each frame quotes two or three complete sentences, so that any
-                    # re-served tail of a frame is likely to hold a whole one
-                    inner = b"".join(corp["nmea"][(k + j) % len(corp["nmea"])] for j in range(3))
-                    body.append(S.codec.ubx_frame(b"\x04", b"\x02", b"e%d " % k + inner))
+                style = draw(st.sampled_from(["quoting", "alternating", "sentences"]))
+                size, goal = 0, draw(st.sampled_from([70000, 70000, 140000]))
+                while size < goal:
+                    if style == "quoting":
+                        # each frame quotes two or three complete sentences, so that any
+                        # re-served tail of a frame is likely to hold a whole one
+                        inner = b"".join(corp["nmea"][(k + j) % len(corp["nmea"])] for j in range(3))
+                        body.append(S.codec.ubx_frame(b"\x04", b"\x02", b"e%d " % k + inner))
+                    else:
+                        # what the reader is busy with when the 64 KiB mark passes varies
+                        src = "ubx" if style == "alternating" and k % 2 else "nmea"
+                        body.append(corp[src][k % len(corp[src])])
+                    size += len(body[-1])
                     k += 1
                 data = b"".join(body) + data
             step = draw(st.sampled_from([1, 7, 100, 1000, 4096, 65536]))
